@@ -43,6 +43,14 @@ theorem terms_cal_fact : allRec 72 termCalOK Gen.termsChunks = true := by
     terms_len_part0, terms_len_part1, terms_len_part2, terms_len_part3, terms_len_part4, terms_len_part5, terms_len_part6,
     records_append, List.length_append, Nat.zero_add, Nat.reduceAdd, Bool.and_self]
 
+/-- TABLE FACT (C08): winter solstice before January 1, Dahan on/after it, Lichun 1..40 days after it — every year. -/
+theorem terms_win_fact : allRec 72 termWinOK Gen.termsChunks = true := by
+  unfold allRec Gen.termsChunks
+  simp only [allChunks_append, terms_termWinOK_part0, terms_termWinOK_part1, terms_termWinOK_part2, terms_termWinOK_part3,
+    terms_termWinOK_part4, terms_termWinOK_part5, terms_termWinOK_part6, terms_termWinOK_part7,
+    terms_len_part0, terms_len_part1, terms_len_part2, terms_len_part3, terms_len_part4, terms_len_part5, terms_len_part6,
+    records_append, List.length_append, Nat.zero_add, Nat.reduceAdd, Bool.and_self]
+
 theorem termRecs_length : termRecs.length = 240000 := by
   unfold termRecs Gen.termsChunks
   simp only [records_append, List.length_append, terms_len_part0, terms_len_part1, terms_len_part2, terms_len_part3,
